@@ -217,7 +217,7 @@ pub fn run_c12(ctx: &Ctx) -> i32 {
         "RST-truncation rule (DESIGN 4.5): a response stream cut short by ECONNRESET is inconclusive, not a violation".into(),
     ];
     let shared = Mutex::new(ev0);
-    let n = ctx.n(3000, 50000);
+    let n = ctx.n(3000, 10000);
     let next = AtomicU64::new(0);
     let deadline = if ctx.budget_s > 0 { Some(Instant::now() + Duration::from_secs(ctx.budget_s)) } else { None };
     std::thread::scope(|s| {
@@ -935,7 +935,7 @@ pub fn run_sock_frames(ctx: &Ctx) -> i32 {
     let mut ev0 = Evidence::new(ctx, "exploration", RULE_SOCK);
     ev0.assumptions = vec!["in-process MemcacheTcpServer on loopback, one fresh server per (stream, segmentation) run".into()];
     let shared = Mutex::new(ev0);
-    let nstreams = ctx.n(400, 6000);
+    let nstreams = ctx.n(400, 2000);
     let next = AtomicU64::new(0);
     let deadline = if ctx.budget_s > 0 { Some(Instant::now() + Duration::from_secs(ctx.budget_s)) } else { None };
     std::thread::scope(|s| {
